@@ -1,5 +1,6 @@
 """C01 — every produced data object is structurally consistent (histories over the whole alphabet)."""
 import random
+from fractions import Fraction
 from gen import *
 from oracles import ConsistencyOracle
 from propbase import StreamProperty
@@ -26,6 +27,20 @@ def streams(tier, seed):
         out.append([base(), {"op": "sort_dims", "obj": 0}])
         out.append([base(), new_op(rng, 1, dims=dims, shape=[2, 3, 4], salt=9),
                     {"op": "concat", "objs": [0, 1], "dim": "n", "coord": None, "out": 2}])
+    # concatenate with the operand in every axis order, its extent along the concatenation dim EQUAL to the receiver's
+    # (so that a join along a wrong axis would still be accepted by NumPy) — 2-D and 3-D, square and not
+    import itertools as _it
+    for nd, shape in ((2, [2, 3]), (2, [3, 3]), (3, [2, 3, 4]), (3, [2, 2, 3])):
+        dims = ["c", "a", "b"][:nd]
+        for k, dm in enumerate(dims):
+            for perm in _it.permutations(dims):
+                a = new_op(rng, 0, dims=dims, shape=shape, cplx=False, kinds=["asc"] * 4)
+                b = new_op(rng, 1, dims=dims, shape=shape, cplx=False, kinds=["asc"] * 4, salt=5000)
+                b["coords"] = [list(c) for c in a["coords"]]
+                last = Fraction(a["coords"][k][-1])
+                b["coords"][k] = [str(last + 1 + i) for i in range(shape[k])]
+                out.append([a, b, {"op": "reorder", "obj": 1, "dims": list(perm)},
+                            {"op": "concatenate", "obj": 0, "other": 1, "dim": dm}])
     n = 80 if tier == "quick" else 1200
     for _ in range(n):
         out.append(history(rng, rng.randint(3, 14)))
